@@ -66,6 +66,8 @@ def cases(run: Run):
                 t = rng.randint(1, N - 1) * dt + rng.choice([-1, 1])
             else:
                 t = rng.randint(1, (N - 1) * dt)
+            if rng.random() < 0.3:
+                t = t + rng.choice([0.4, 0.25, 0.5, 0.75, 0.015625])  # instants are not whole seconds in general
             if t in used and rng.random() < 0.5:
                 continue  # otherwise: two impulses of the agent at one instant (both must be applied)
             used.add(t)
@@ -87,6 +89,14 @@ def cases(run: Run):
         ks = rng.sample(range(1, 12), 3)
         imps = [{"t": k * dt, "dv": [0.0, 0.01, 0.002]} for k in ks[:2]] + [{"t": ks[2] * dt + rng.choice([-1, 1, 7]), "dv": [0.0, -0.01, 0.0]}]
         out.append({"op": "scn-impulse", "start": start.isoformat(), "dt": dt, "N": max(im["t"] for im in imps) // dt + 2, "imps": imps, "seed": rng.randint(1, 999)})
+    # several kinds of event in one step: a target that joins through an addition event and manoeuvres later in that same step (or in a later one)
+    for _ in range(run.n(1, 6)):
+        dt = rng.choice([60, 60, 120])
+        k = rng.randint(2, 4)
+        t_add = (k - 1) * dt + rng.choice([10, dt // 2, dt])
+        t_imp = rng.choice([k * dt, k * dt, min(k * dt, t_add + rng.randint(1, 20)), k * dt + rng.randint(1, dt)])
+        out.append({"op": "scn-join", "start": rng.choice([datetime(2021, 3, 30, 16, 0, 0), rand_start(rng)]).isoformat(), "dt": dt, "N": k + 3, "t_add": t_add, "t_imp": max(t_imp, t_add),
+                    "dv": [0.0, 0.01, 0.002], "seed": rng.randint(1, 999)})
     return out
 
 
@@ -324,7 +334,64 @@ def oracle_scenario_impulse(c, impl):
     return fails
 
 
+def impl_scenario_join(c):
+    """a real scenario in which a target is added by an event and given an impulse afterwards; run with and without the impulse"""
+    import scen
+    from resonaate.physics.transforms.methods import ecef2eci, lla2ecef
+
+    start = datetime.fromisoformat(c["start"])
+    dt, N = c["dt"], c["N"]
+
+    def tgt(tid, lat, lon, alt):
+        ecef = lla2ecef(np.array([np.radians(lat), np.radians(lon), alt]))
+        eci = ecef2eci(ecef, start + timedelta(seconds=90))
+        r = eci[:3]
+        v = np.cross([0, 0, 1.0], r)
+        v = v / np.linalg.norm(v) * np.sqrt(398600.4415 / np.linalg.norm(r))
+        return scen.target_cfg(tid, r, v)
+
+    finals = {}
+    for with_impulse in (True, False):
+        when_add = scen.iso(start + timedelta(seconds=c["t_add"]))
+        when_imp = scen.iso(start + timedelta(seconds=c["t_imp"]))
+        events = [{"scope": "scenario_step", "scope_instance_id": 0, "start_time": when_add, "end_time": when_add, "event_type": "target_addition",
+                   "tasking_engine_id": 1, "target_agent": tgt(10101, 3.0, -1.0, 900.0)}]
+        if with_impulse:
+            events.append({"scope": "agent_propagation", "scope_instance_id": 10101, "start_time": when_imp, "end_time": when_imp, "event_type": "impulse",
+                           "thrust_vector": c["dv"], "thrust_frame": "eci", "planned": False})
+        cfg = scen.scenario_cfg(start, dt, dt * (N + 1), [scen.engine_cfg(1, [tgt(10001, 1.0, 2.0, 700.0)], [scen.radar_cfg(60001, 0.0, 0.0)])], truth_only=True,
+                                seed=c.get("seed", 1), events=events, prop="two_body")
+        app = scen.build(cfg)
+        try:
+            for _ in range(N):
+                app.stepForward()
+            finals[with_impulse] = {tid: [float(v) for v in a.eci_state] for tid, a in app.target_agents.items()}
+        finally:
+            scen.cleanup()
+    return {"with": finals[True], "without": finals[False]}
+
+
+def oracle_scenario_join(c, impl):
+    if impl[0] != "ok":
+        return [("raises", f"{impl[1]}")]
+    w, wo = impl[1]["with"], impl[1]["without"]
+    if 10101 not in w or 10101 not in wo:
+        return [("scenario-join", f"the target added at +{c['t_add']} s is not in the scenario at the end of the run")]
+    dv = float(np.linalg.norm(np.array(w[10101][3:]) - np.array(wo[10101][3:])))
+    size = float(np.linalg.norm(c["dv"]))
+    fails = []
+    # a few minutes after the impulse the velocity difference between the two runs is still the delta-v, to within a few per cent
+    if not 0.8 * size <= dv <= 1.2 * size:
+        fails.append(("scenario-join", f"start {c['start']} dt {c['dt']}: a target added at +{c['t_add']} s and given an impulse of {size:.4f} km/s at +{c['t_imp']} s ends the run "
+                                       f"{dv:.4g} km/s from the run without the impulse ({dv / size:.2f} of the delta-v: dropped if 0, duplicated if 2)"))
+    if w[10001] != wo[10001]:
+        fails.append(("scenario-join:other", "the impulse addressed to the added target changed the other target's trajectory"))
+    return fails
+
+
 def impl_case(c):
+    if c["op"] == "scn-join":
+        return impl_scenario_join(c)
     if c["op"] == "scn-impulse":
         return impl_scenario_impulse(c)
     return impl_deliver(c) if c["op"] == "deliver" else impl_impulse(c)
@@ -332,7 +399,7 @@ def impl_case(c):
 
 # ----------------------------------------------------------------------------- model
 def model_lines(c, i):
-    if c["op"] == "scn-impulse":
+    if c["op"] in ("scn-impulse", "scn-join"):
         return []
     start = secs(datetime.fromisoformat(c["start"]))
     dt, N = c["dt"], c["N"]
@@ -385,6 +452,8 @@ def compare(run, c, i, mo):
 
 def oracle(run: Run, c, impl):
     op = c["op"]
+    if op == "scn-join":
+        return oracle_scenario_join(c, impl)
     if op == "scn-impulse":
         return oracle_scenario_impulse(c, impl)
     if impl[0] != "ok":
@@ -413,14 +482,14 @@ def oracle(run: Run, c, impl):
     else:
         for im in c["imps"]:
             info = i["per_imp"][im["id"]]
-            want = [-(-im["t"] // dt)]
+            want = [int(-(-im["t"] // dt))]
             if info["delivered_steps"] != want:
                 fails.append(("impulse:delivery", f"start {c['start']} dt {dt}: impulse at +{im['t']} s delivered in steps {info['delivered_steps']}, expected {want}"))
         n = len(c["imps"])
         if i["total"] != n:
             fails.append(("impulse:count", f"start {c['start']} dt {dt}: {n} impulses at {[im['t'] for im in c['imps']]} s changed the velocity {i['total']} times (per step {i['applied_per_step']})"))
         for im in c["imps"]:
-            k = -(-im["t"] // dt)
+            k = int(-(-im["t"] // dt))
             if i["applied_per_step"][k - 1] == 0 and (k >= N or i["applied_per_step"][k] == 0):
                 fails.append(("impulse:time", f"impulse at +{im['t']} s was not applied in step {k} (or just after its boundary)"))
         planned = sum(1 for im in c["imps"] if im["planned"])
